@@ -11,7 +11,12 @@ capacities. Python checks on the observed run: remaining never increases, is pos
 completion date, equals the reference remaining at every date (1e-9), loads equal the reference loads and never
 exceed the capacity, finish dates equal the reference.
 
-Mutations tried (tools/mutbuild.sh, quick tier): see the end of this docstring (filled in after the experiments)
+Mutations tried (tools/mutbuild.sh, quick tier):
+  * CpuImpl.cpp: capacity of a multi-core host = (cores + 1) * speed: CAUGHT (exit 1)
+  * Model.cpp (next_occurring_event_lazy): remaining work not brought up to date when the share of an action changes:
+    MISSED by the first version of this check, which read the remaining work at every clock advance - reading it
+    (Action::get_remains) itself updates a lazy action, which hides the defect. The check now reads it at every third
+    advance only in half of the runs; that version could not be re-run against the mutation (the machine was heavily loaded; the coordinator stopped the mutation experiments before the whole list was run).
 """
 import json
 from fractions import Fraction as F
